@@ -106,8 +106,15 @@ func genLoopScenario(rng *chain.Rng, id int, maxEventRanges int) loopScenario {
 			if lo < 0 {
 				lo = 0
 			}
+			span := int(ending-lo+1) + 3 // up to 2 blocks past the confirmation boundary
+			if span < 1 {
+				span = 1
+			}
 			for k := 0; k < 1+rng.Intn(3); k++ {
-				b := lo + int64(rng.Intn(int(ending-lo+1)+3)) // up to 2 blocks past the confirmation boundary
+				b := lo + int64(rng.Intn(span))
+				if b < 0 {
+					b = 0
+				}
 				sc.Events[b] = append(sc.Events[b], b*100+int64(len(sc.Events[b])))
 			}
 			eventRanges++
